@@ -18,21 +18,27 @@ func treeOpts() sgen.Opts {
 
 // stripConstraints removes every value constraint (bounds, lengths, patterns, item counts, formats, enums, defaults)
 // and keeps types, properties, required, items, $defs and $ref.
-func stripConstraints(v any) any { return stripConstraintsKeeping(v, false) }
+func stripConstraints(v any) any { return stripConstraintsKeeping(v, 0) }
 
-// stripConstraintsKeeping: as stripConstraints, but numeric bounds stay when keepBounds is set.
-func stripConstraintsKeeping(v any, keepBounds bool) any {
+// stripConstraintsKeeping: as stripConstraints, but numeric bounds stay from level 1 on, string limits / patterns and
+// array item counts from level 2 on.
+func stripConstraintsKeeping(v any, keepBounds int) any {
 	switch t := v.(type) {
 	case sgen.M:
 		out := sgen.M{}
 		for k, x := range t {
 			switch k {
 			case "minimum", "maximum", "exclusiveMinimum", "exclusiveMaximum":
-				if keepBounds {
+				if keepBounds >= 1 {
 					out[k] = x
 				}
 				continue
-			case "multipleOf", "minLength", "maxLength", "pattern", "minItems", "maxItems", "format", "enum", "default":
+			case "minLength", "maxLength", "pattern", "minItems", "maxItems":
+				if keepBounds >= 2 {
+					out[k] = x
+				}
+				continue
+			case "multipleOf", "format", "enum", "default":
 				continue
 			case "properties", "$defs", "definitions":
 				m := sgen.M{}
@@ -422,7 +428,7 @@ func init() {
 	register("C02", func(c *engine.Ctx) {
 		c.Rule = "random structured schemas (tree fragment, plus formats) with schema-directed VALID documents (boundary values of every constraint, optional properties present or absent, null where allowed, nested objects and arrays), a third of the programs also generated with --min-sized-ints and bounds near the integer type limits; every document the reference calls valid must be accepted and every non-empty declared value must re-appear unchanged, at the same place, in json.Marshal of the decoded value. Near-duplicates: pairs of schema nodes whose Go type names collide (sibling properties, definitions, definition vs property, array items) and whose schemas differ in exactly one keyword (24 perturbations: format, type, each bound, required, enum members, items, default, nullable, annotation only, identical), both orders, documents valid for the one and for the other at both positions. The broad random stream (all features, mutated documents) additionally ties model and implementation. Distinct = distinct (stream, verdicts, document shape)."
 		c.Proofs([]string{"GJS.Props.C02", "GJS.Props.Whole", "GJS.Proofs.Mono", "GJS.Proofs.Stable"}, []string{
-			"GJS.Props.C02.certShape_accepts", "GJS.Props.C02.certified_exact_on_shape", "GJS.Props.C02.certFull_accepts", "GJS.Props.C02.decodeStruct_field", "GJS.Props.C02.num_decode_passes", "GJS.Props.C02.acc_map_iff",
+			"GJS.Props.C02.certShape_accepts", "GJS.Props.C02.certified_exact_on_shape", "GJS.Props.C02.certFull_accepts", "GJS.Props.C02.certAll_accepts", "GJS.Props.C02.str_decode_passes", "GJS.Props.C02.arr_decode_passes", "GJS.Props.C02.decodeStruct_field", "GJS.Props.C02.num_decode_passes", "GJS.Props.C02.acc_map_iff",
 			"GJS.Proofs.decode_err_mono", "GJS.Proofs.decode_stable",
 			"GJS.Props.C02.prim_roundtrip", "GJS.Props.C02.validators_only_reject_on_constraints", "GJS.Props.C02.unmarshal_accept_stable",
 			"GJS.Props.C02.rejected_forever_not_accepted", "GJS.Proofs.decode_ok_mono", "GJS.Proofs.okMono",
@@ -492,8 +498,8 @@ func init() {
 		// programs WITHOUT value constraints (types, properties, required, items only): the fragment of the whole-document
 		// completeness theorem `certShape_accepts` — the evidence counts how many of them the driver certifies (`shape`)
 		for i := 0; i < c.N(80, 800); i++ {
-			g := sgen.New(c.R, sgen.Opts{Defs: i%2 == 0, MaxDepth: 3, NoFormatDefs: true, NoAliasDefs: true})
-			root := stripConstraintsKeeping(g.Root(""), i%3 != 0).(sgen.M) // two thirds keep their numeric bounds (certFull)
+			g := sgen.New(c.R, sgen.Opts{Defs: i%2 == 0, MaxDepth: 3, NoNestedLimits: true, NoFormatDefs: true, NoAliasDefs: true})
+			root := stripConstraintsKeeping(g.Root(""), i%3).(sgen.M) // a third each: none / numeric bounds (certFull) / also string and array limits (certAll)
 			docs := []any{g.FullSample(root, 0)}
 			for k := 0; k < 8; k++ {
 				docs = append(docs, g.Sample(root, 0))
@@ -626,6 +632,7 @@ func init() {
 		}
 		certCount(c, res, "shape")
 		certCount(c, res, "full")
+		certCount(c, res, "all")
 		breaks(c, res, nil, fails > 0)
 		knownProgramFindings(c)
 	})
